@@ -907,7 +907,13 @@ class SemanticErrorChecker:
         Returns:
             True if the given unary expression is a valid expression.
         """
-        return self.check_expression(expression["value"], context, task)
+        if not self.check_expression(expression["value"], context, task):
+            return False
+        if self.expression_is_string(expression["value"], task):
+            msg = "A string can not be negated"
+            self.error_handler.print_error(msg, context=context)
+            return False
+        return True
 
     def check_binary_operation(self, expression, context: ParserRuleContext, task: Task) -> bool:
         """Checks if a binary expression is a valid expression.
